@@ -44,9 +44,13 @@ def _eval(clause, row):
         return _eval(clause.element, row)
     if isinstance(clause, E.BinaryExpression):
         left, right = clause.left, clause.right
-        if not isinstance(left, sa.Column):
+        if isinstance(left, E.Cast) and isinstance(left.clause, sa.Column) and isinstance(left.type, sa.Integer):
+            lv = _sqlite_cast_int(row[left.clause.name])
+        elif isinstance(left, sa.Column):
+            lv = row[left.name]
+        else:
             raise Unsupported("left operand %r" % (left,))
-        lv, rv = row[left.name], _bind(right)
+        rv = _bind(right)
         op = clause.operator
         if op is operator.eq:
             return lv == rv
@@ -62,6 +66,23 @@ def _eval(clause, row):
             return lv != rv
         raise Unsupported("operator %r" % (op,))
     raise Unsupported("where clause %r" % (type(clause).__name__,))
+
+
+def _sqlite_cast_int(v):
+    """SQLite CAST(text AS INTEGER): the longest numeric prefix (optional sign, digits), 0 if there is none"""
+    if isinstance(v, int):
+        return v
+    if v is None:
+        return None
+    t = str(v).lstrip(" ")
+    sign, i = 1, 0
+    if t[:1] in ("+", "-"):
+        sign = -1 if t[0] == "-" else 1
+        i = 1
+    j = i
+    while j < len(t) and t[j].isdigit():
+        j += 1
+    return sign * int(t[i:j]) if j > i else 0
 
 
 class Result:
